@@ -369,6 +369,249 @@ def unroll_join_accumulations(tree):
     return count
 
 
+def flatten_private_bases(tree):
+    """Normalisation: a private intermediate base class of the module
+    (``class _Common(Base)`` with ``class A(_Common)``, ``class B(_Common)``)
+    that only serves to share members is read as if every subclass defined
+    those members itself and derived from ``Base`` directly - what the code
+    looked like before the members were pulled up.  Not when the private class
+    uses ``super()`` or is used for anything but deriving from it."""
+    import copy
+    count = 0
+    for _round in range(3):
+        classes = {st.name: st for st in tree.body if isinstance(st, ast.ClassDef)}
+        done = False
+        for pname, pcls in list(classes.items()):
+            if not (pname.startswith('_') and not pname.startswith('__')):
+                continue
+            subs = [c for c in classes.values() if any(isinstance(b, ast.Name) and b.id == pname for b in c.bases)]
+            if not subs:
+                continue
+            other_refs = [n for n in ast.walk(tree) if isinstance(n, ast.Name) and n.id == pname
+                          and not any(n is b for c in subs for b in c.bases)]
+            uses_super = any(isinstance(n, ast.Call) and isinstance(n.func, ast.Name) and n.func.id == 'super'
+                             for n in ast.walk(pcls))
+            if other_refs or uses_super or pcls.decorator_list or pcls.keywords:
+                continue
+            members = [m for m in pcls.body if not (isinstance(m, ast.Expr) and isinstance(m.value, ast.Constant))
+                       and not isinstance(m, ast.Pass)]
+            if not all(isinstance(m, (ast.FunctionDef, ast.Assign, ast.AnnAssign)) for m in members):
+                continue
+            for c in subs:
+                own = {m.name for m in c.body if isinstance(m, ast.FunctionDef)} | {
+                    t.id for m in c.body if isinstance(m, ast.Assign) for t in m.targets if isinstance(t, ast.Name)} | {
+                    m.target.id for m in c.body if isinstance(m, ast.AnnAssign) and isinstance(m.target, ast.Name)}
+                add = []
+                for m in members:
+                    nm = m.name if isinstance(m, ast.FunctionDef) else (
+                        m.targets[0].id if isinstance(m, ast.Assign) and isinstance(m.targets[0], ast.Name)
+                        else getattr(getattr(m, 'target', None), 'id', None))
+                    if nm is None or nm in own:
+                        continue
+                    add.append(copy.deepcopy(m))
+                c.body.extend(add)
+                new_bases = []
+                for b in c.bases:
+                    if isinstance(b, ast.Name) and b.id == pname:
+                        new_bases.extend(copy.deepcopy(pcls.bases))
+                    else:
+                        new_bases.append(b)
+                c.bases = new_bases
+            tree.body = [st for st in tree.body if st is not pcls]
+            count += 1
+            done = True
+            break
+        if not done:
+            break
+    if count:
+        ast.fix_missing_locations(tree)
+    return count
+
+
+def split_tuple_locals(tree):
+    """Normalisation (scalar replacement): locals that only ever hold tuples of
+    one fixed length - stored as displays ``t = (a, b, c)`` or copied from one
+    another ``best = t``, read as ``t[0]`` or unpacked ``x, y, z = t`` - are
+    read as that many separate locals ``t_0, t_1, t_2``.  A running optimum kept
+    in one tuple is then the same program as one kept in three variables."""
+    from .inline import INTRODUCED
+    count = 0
+    for fn in ast.walk(tree):
+        if not isinstance(fn, (ast.FunctionDef, ast.AsyncFunctionDef)):
+            continue
+        params = {a.arg for a in fn.args.args + fn.args.kwonlyargs + fn.args.posonlyargs}
+        nested = {m.id for n in ast.walk(fn) if n is not fn and isinstance(
+            n, (ast.FunctionDef, ast.Lambda, ast.ListComp, ast.SetComp, ast.DictComp, ast.GeneratorExp))
+            for m in ast.walk(n) if isinstance(m, ast.Name)}
+        # parent links local to this pass
+        parent = {}
+        for n in ast.walk(fn):
+            for c in ast.iter_child_nodes(n):
+                parent[id(c)] = n
+        names = {n.id for n in ast.walk(fn) if isinstance(n, ast.Name) and isinstance(n.ctx, ast.Store)}
+        names -= params | nested
+        arity = {}
+        bad = set()
+
+        def stmt_of(n):
+            while not isinstance(n, ast.stmt):
+                n = parent[id(n)]
+            return n
+        for n in ast.walk(fn):
+            if not (isinstance(n, ast.Name) and n.id in names):
+                continue
+            par = parent[id(n)]
+            if isinstance(n.ctx, ast.Store):
+                ok = isinstance(par, (ast.Assign, ast.AnnAssign)) and (
+                    par.targets == [n] if isinstance(par, ast.Assign) else par.target is n) \
+                    and par.value is not None
+                if ok and isinstance(par.value, ast.Tuple) and not any(
+                        isinstance(e, ast.Starred) for e in par.value.elts):
+                    k = len(par.value.elts)
+                    if arity.setdefault(n.id, k) != k or any(
+                            isinstance(m, ast.Name) and m.id == n.id for m in ast.walk(par.value)):
+                        bad.add(n.id)
+                elif ok and isinstance(par.value, ast.Name) and par.value.id in names:
+                    pass            # copy: checked below
+                else:
+                    bad.add(n.id)
+            else:
+                if isinstance(par, ast.Subscript) and par.value is n and isinstance(par.slice, ast.Constant) \
+                        and type(par.slice.value) is int and isinstance(par.ctx, ast.Load):
+                    continue
+                if isinstance(par, ast.Assign) and par.value is n and len(par.targets) == 1 and (
+                        isinstance(par.targets[0], ast.Name) and par.targets[0].id in names
+                        or isinstance(par.targets[0], (ast.Tuple, ast.List)) and all(
+                            isinstance(e, ast.Name) for e in par.targets[0].elts)):
+                    continue
+                bad.add(n.id)
+        # propagate arity through copies, drop inconsistent ones
+        changed = True
+        while changed:
+            changed = False
+            for n in ast.walk(fn):
+                if isinstance(n, ast.Assign) and len(n.targets) == 1 and isinstance(n.targets[0], ast.Name) \
+                        and isinstance(n.value, ast.Name) and n.targets[0].id in names and n.value.id in names:
+                    a, b = n.targets[0].id, n.value.id
+                    if a in bad or b in bad:
+                        if not (a in bad and b in bad):
+                            bad |= {a, b}
+                            changed = True
+                        continue
+                    ka, kb = arity.get(a), arity.get(b)
+                    if ka is None and kb is not None:
+                        arity[a] = kb
+                        changed = True
+                    elif kb is None and ka is not None:
+                        arity[b] = ka
+                        changed = True
+                    elif ka is not None and kb is not None and ka != kb:
+                        bad |= {a, b}
+                        changed = True
+        cand = {nm for nm in names if nm in arity and nm not in bad}
+        # subscripts in range, unpack arities right
+        for n in ast.walk(fn):
+            if isinstance(n, ast.Subscript) and isinstance(n.value, ast.Name) and n.value.id in cand \
+                    and isinstance(n.slice, ast.Constant) and not (0 <= n.slice.value < arity[n.value.id]):
+                cand.discard(n.value.id)
+            if isinstance(n, ast.Assign) and isinstance(n.value, ast.Name) and n.value.id in cand \
+                    and isinstance(n.targets[0], (ast.Tuple, ast.List)) \
+                    and len(n.targets[0].elts) != arity[n.value.id]:
+                cand.discard(n.value.id)
+        # a copy partner that fell out takes the other with it
+        for n in ast.walk(fn):
+            if isinstance(n, ast.Assign) and len(n.targets) == 1 and isinstance(n.targets[0], ast.Name) \
+                    and isinstance(n.value, ast.Name) and ((n.targets[0].id in cand) != (n.value.id in cand)) \
+                    and (n.targets[0].id in names and n.value.id in names):
+                cand.discard(n.targets[0].id)
+                cand.discard(n.value.id)
+        if not cand:
+            continue
+
+        def comp(nm, i, ctx, at):
+            INTRODUCED.add('%s_%d' % (nm, i))
+            return ast.copy_location(ast.Name(id='%s_%d' % (nm, i), ctx=ctx), at)
+        for holder in ast.walk(fn):
+            for field in ('body', 'orelse', 'finalbody'):
+                block = getattr(holder, field, None)
+                if not (isinstance(block, list) and block and isinstance(block[0], ast.stmt)):
+                    continue
+                new = []
+                for st in block:
+                    tgt = st.targets[0] if isinstance(st, ast.Assign) and len(st.targets) == 1 else (
+                        st.target if isinstance(st, ast.AnnAssign) else None)
+                    val = getattr(st, 'value', None)
+                    if isinstance(tgt, ast.Name) and tgt.id in cand and isinstance(val, ast.Tuple):
+                        for i, e in enumerate(val.elts):
+                            new.append(ast.copy_location(ast.Assign(targets=[comp(tgt.id, i, ast.Store(), st)],
+                                                                    value=e), st))
+                        continue
+                    if isinstance(tgt, ast.Name) and tgt.id in cand and isinstance(val, ast.Name) and val.id in cand:
+                        for i in range(arity[tgt.id]):
+                            new.append(ast.copy_location(ast.Assign(
+                                targets=[comp(tgt.id, i, ast.Store(), st)], value=comp(val.id, i, ast.Load(), st)), st))
+                        continue
+                    if isinstance(tgt, (ast.Tuple, ast.List)) and isinstance(val, ast.Name) and val.id in cand:
+                        for i, e in enumerate(tgt.elts):
+                            new.append(ast.copy_location(ast.Assign(targets=[e], value=comp(val.id, i, ast.Load(), st)), st))
+                        continue
+                    new.append(st)
+                setattr(holder, field, new)
+        for n in ast.walk(fn):
+            if isinstance(n, ast.Subscript) and isinstance(n.value, ast.Name) and n.value.id in cand \
+                    and isinstance(n.slice, ast.Constant):
+                rep = comp(n.value.id, n.slice.value, ast.Load(), n)
+                n.__class__ = ast.Name
+                n.__dict__.clear()
+                n.__dict__.update(rep.__dict__)
+        count += len(cand)
+    if count:
+        ast.fix_missing_locations(tree)
+    return count
+
+
+def fold_target_unpacking(tree):
+    """Normalisation: ``for key, v in d.items(): ...; x, y, z = key; ...`` with
+    ``key`` used nowhere else is read as ``for (x, y, z), v in d.items()``: the
+    components are named in the loop target.  (The unpacking must come before
+    any use of x, y, z in the body.)"""
+    count = 0
+    for fn in ast.walk(tree):
+        if not isinstance(fn, (ast.FunctionDef, ast.AsyncFunctionDef)):
+            continue
+        for lp in ast.walk(fn):
+            if not isinstance(lp, ast.For):
+                continue
+            slots = []
+            if isinstance(lp.target, (ast.Tuple, ast.List)):
+                slots = [(lp.target.elts, i) for i, e in enumerate(lp.target.elts) if isinstance(e, ast.Name)]
+            for elts, i in slots:
+                name = elts[i].id
+                uses = [n for n in ast.walk(fn) if isinstance(n, ast.Name) and n.id == name]
+                if len(uses) != 2:
+                    continue
+                for k, st in enumerate(lp.body):
+                    if isinstance(st, ast.Assign) and len(st.targets) == 1 \
+                            and isinstance(st.targets[0], (ast.Tuple, ast.List)) \
+                            and isinstance(st.value, ast.Name) and st.value.id == name \
+                            and all(isinstance(e, ast.Name) for e in st.targets[0].elts):
+                        comps = {e.id for e in st.targets[0].elts}
+                        earlier = any(isinstance(n, ast.Name) and n.id in comps
+                                      for b in lp.body[:k] for n in ast.walk(b))
+                        elsewhere = sum(1 for n in ast.walk(fn) if isinstance(n, ast.Name) and n.id in comps
+                                        and isinstance(n.ctx, ast.Store)) != len(comps)
+                        if earlier or elsewhere:
+                            break
+                        elts[i] = ast.copy_location(ast.Tuple(elts=list(st.targets[0].elts), ctx=ast.Store()),
+                                                    elts[i])
+                        del lp.body[k]
+                        if not lp.body:
+                            lp.body.append(ast.copy_location(ast.Pass(), st))
+                        count += 1
+                        break
+    return count
+
+
 def unroll_constant_comprehensions(tree):
     """Normalisation: a list comprehension over ``range(n)`` with a small
     constant n and no condition - ``[f(xs[i]) for i in range(3)]`` - is read
@@ -553,6 +796,42 @@ def unroll_callee_loops(tree):
                 continue
             new = []
             for st in block:
+                # `for f in (g, h, k): r = f(x); if r: return r` - a single name over a short
+                # literal of plain names that the body calls: the calls can be resolved
+                if isinstance(st, ast.For) and not st.orelse and isinstance(st.target, ast.Name) \
+                        and isinstance(st.iter, (ast.Tuple, ast.List)) and 2 <= len(st.iter.elts) <= 6 \
+                        and all(isinstance(e, (ast.Name, ast.Attribute)) for e in st.iter.elts) \
+                        and any(isinstance(n, ast.Call) and isinstance(n.func, ast.Name) and n.func.id == st.target.id
+                                for b in st.body for n in ast.walk(b)) \
+                        and not any(isinstance(n, (ast.Break, ast.Continue, ast.Yield, ast.Lambda, ast.FunctionDef))
+                                    for b in st.body for n in ast.walk(b)) \
+                        and not any(isinstance(n, ast.Name) and n.id == st.target.id and isinstance(n.ctx, ast.Store)
+                                    for b in st.body for n in ast.walk(b)) \
+                        and sum(1 for b in st.body for _n in ast.walk(b)) <= 40:
+                    for e in st.iter.elts:
+                        for b in st.body:
+                            new.append(Sub({st.target.id: e}).visit(copy.deepcopy(b)))
+                    count += 1
+                    continue
+                # `for m in (f(a), g(b), h(c)): v = m @ v` - a single name over a short
+                # literal of expressions, the body free of calls and storing nothing
+                # the expressions read: each element is read where it is used
+                if isinstance(st, ast.For) and not st.orelse and isinstance(st.target, ast.Name) \
+                        and isinstance(st.iter, (ast.Tuple, ast.List)) and 2 <= len(st.iter.elts) <= 4 \
+                        and not any(isinstance(e, ast.Starred) for e in st.iter.elts) \
+                        and any(isinstance(n, ast.Call) for e in st.iter.elts for n in ast.walk(e)) \
+                        and not any(isinstance(n, (ast.Call, ast.Break, ast.Continue, ast.Return, ast.Yield,
+                                                   ast.Lambda, ast.FunctionDef))
+                                    for b in st.body for n in ast.walk(b)):
+                    stored_ = {n.id for b in st.body for n in ast.walk(b)
+                               if isinstance(n, ast.Name) and isinstance(n.ctx, ast.Store)}
+                    read_ = {n.id for e in st.iter.elts for n in ast.walk(e) if isinstance(n, ast.Name)}
+                    if not (stored_ & read_) and st.target.id not in stored_:
+                        for e in st.iter.elts:
+                            for b in st.body:
+                                new.append(Sub({st.target.id: e}).visit(copy.deepcopy(b)))
+                        count += 1
+                        continue
                 ok = isinstance(st, ast.For) and not st.orelse \
                     and isinstance(st.target, (ast.Tuple, ast.List)) \
                     and all(isinstance(t, ast.Name) for t in st.target.elts) \
@@ -667,7 +946,7 @@ def inline_pure_temporaries(tree):
                         if stores.get(name) != 1 or name in params or name in captured:
                             continue
                         val = st.value
-                        if isinstance(val, ast.Name) and name in introduced:
+                        if isinstance(val, ast.Name) and (name in introduced or val.id in introduced):
                             pass        # a copy that exists only because a helper was expanded
                         elif isinstance(val, (ast.Constant, ast.Name)) or not _pure_value(val) or field_alias(val):
                             continue
@@ -856,9 +1135,15 @@ class Module:
         except SyntaxError as err:  # a tree that does not compile
             raise AnalysisError('cannot parse {0}: {1}'.format(path, err))
         from .inline import inline_private_helpers
+        self.flattened_bases = flatten_private_bases(self.tree)
         self.inlined_helpers = inline_private_helpers(self.tree)
         self.unrolled_callee_loops = unroll_callee_loops(self.tree)
+        if self.unrolled_callee_loops:
+            # calls that became visible by unrolling
+            self.inlined_helpers += inline_private_helpers(self.tree)
         self.unrolled_comprehensions = unroll_constant_comprehensions(self.tree)
+        self.folded_unpackings = fold_target_unpacking(self.tree)
+        self.split_tuple_locals = split_tuple_locals(self.tree)
         self.split_tuples = split_tuple_assignments(self.tree)
         self.sunk_callees = sink_selected_callees(self.tree)
         self.unrolled_joins = unroll_join_accumulations(self.tree) + unroll_join_tails(self.tree)
